@@ -318,6 +318,52 @@ class OrderedSymExec(SymExec):
                 out.append((q, "next"))
         return out
 
+    def _search_return(self, s: ast.For, after: ast.stmt) -> ast.Return | None:
+        """for TARGET in it: if c: return V          ==   return next((V for TARGET in it if c), D)
+           return D
+        a first-match search written as a loop with several returns (the engine's loop statement is opaque and would
+        drop the return inside the body).  None when the loop is anything else: the body must be pure, have exactly one
+        returning way, change nothing that lives on, and D must not read what the loop binds."""
+        if s.orelse or not isinstance(after, ast.Return) or after.value is None:
+            return None
+        bound = {n.id for n in ast.walk(s) if isinstance(n, ast.Name) and isinstance(n.ctx, (ast.Store, ast.Del))}
+        if any(isinstance(n, ast.Name) and n.id in bound for n in ast.walk(after.value)):
+            return None
+        try:
+            body = OrderedSymExec(256, self.prog, self.fn, self.depth).block(Path(), list(s.body))
+        except AnalysisError:
+            return None
+        rets = [q for q, st in body if st == "return"]
+        if len(rets) != 1 or rets[0].ret is None or len(body) > 8 \
+                or any(st not in ("next", "continue", "return") for _q, st in body):
+            return None
+        for q, _st in body:
+            if any(e.kind != "cond" and not (e.kind == "call" and _pure_call(e.node)) for e in q.effects):  # type: ignore[arg-type]
+                return None
+        ifs: list[ast.expr] = []
+        for e in rets[0].effects:
+            if e.kind == "cond":
+                as_written = next((c[4] for c in rets[0].conds if c[2] is e.node), True)
+                atom = copy.deepcopy(e.node)
+                ifs.append(atom if as_written else ast.UnaryOp(op=ast.Not(), operand=atom))  # type: ignore[arg-type]
+        if not ifs:
+            return None
+        gen = ast.GeneratorExp(elt=copy.deepcopy(rets[0].ret), generators=[ast.comprehension(
+            target=copy.deepcopy(s.target), iter=copy.deepcopy(s.iter),
+            ifs=[ifs[0] if len(ifs) == 1 else ast.BoolOp(op=ast.And(), values=ifs)], is_async=0)])
+        call = ast.Call(func=ast.Name(id="next", ctx=ast.Load()), args=[gen, copy.deepcopy(after.value)], keywords=[])
+        return ast.fix_missing_locations(ast.copy_location(ast.Return(value=call), s))
+
+    def block(self, p: Path, stmts: list[ast.stmt]) -> list[tuple[Path, str]]:
+        stmts = list(stmts)
+        for i in range(len(stmts) - 1):
+            if isinstance(stmts[i], ast.For):
+                folded = self._search_return(stmts[i], stmts[i + 1])  # type: ignore[arg-type]
+                if folded is not None:
+                    stmts = stmts[:i] + [folded]
+                    break
+        return super().block(p, stmts)
+
     def stmt(self, p: Path, s: ast.stmt) -> list[tuple[Path, str]]:
         if isinstance(s, ast.For) and s.orelse:
             got = self._search_else(p, s)
